@@ -105,6 +105,63 @@ def run_order_case(name, kw):
     return stats
 
 
+def template_names(name):
+    from checks.pipeline_common import NAME_RE
+
+    names = []
+    for n in NAME_RE.findall(pool.family_templates("thorough")[name]):
+        if n not in names and n != "rootattrs":
+            names.append(n)
+    return names
+
+
+def run_history_sym_case(name, vary):
+    """Symbolic history: document A (all numbers symbolic) is converted, then document B in the SAME
+    module instance, where B is A with the number `vary` replaced by an independent symbol (every
+    other number is the same term, hence prints as the same text: whatever a cache might key on is
+    shared except for that one spot).  B's output must equal B's output from a fresh instance for
+    all values (SMT validity per path)."""
+    from checks import outcheck
+
+    template = pool.family_templates("thorough")[name]
+    opts = dict(PIPE_OPTS)
+    opts.update({"tol_cut": True})
+
+    def harness(ctx):
+        h = SymH(ctx, None)
+        vals_a = symbols(h, template)
+        vals_b = dict(vals_a)
+        if vary is not None:
+            v = h.real(vary + "_b")
+            if vary[0] == "o":
+                h.assume(v >= 0)
+                h.assume(v <= 1)
+            elif vary[0] in "whrs":
+                h.assume(v > 0)
+            vals_b[vary] = v
+            h.assume(h.not_(h.eq(v, vals_a[vary])))  # B really differs from A
+        src_a = instantiate(h, template, vals_a)
+        src_b = instantiate(h, template, vals_b)
+        m1 = loader.load(fake_skia=True)
+        try:
+            convert_with(m1, src_a)
+            out_after = convert_with(m1, src_b)
+        finally:
+            loader.unload(m1)
+        m2 = loader.load(fake_skia=True)
+        try:
+            out_fresh = convert_with(m2, src_b)
+        finally:
+            loader.unload(m2)
+        if out_after.startswith("EXC:") or out_fresh.startswith("EXC:"):
+            h.check(out_after == out_fresh, "output_depends_on_earlier_conversions", detail=(out_after[:200], out_fresh[:200]))
+        else:
+            outcheck.same_document(h, out_after, out_fresh, "output_depends_on_earlier_conversions")
+        return out_after
+
+    return C.explore(harness, opts=opts, max_paths=60, timeout_ms=10000)
+
+
 def run_history_case(a, b):
     """convert(B) after convert(A) in one module instance == convert(B) in a fresh instance"""
     ta, tb = concrete_doc(a), concrete_doc(b)
@@ -127,6 +184,9 @@ def cases(tier, seed):
     cs.append({"kind": "order_error_message", "doc": "unsupported:text"})
     for a, b in itertools.permutations(DOCS, 2):
         cs.append({"kind": "history", "a": a, "b": b})
+    for d in DOCS:
+        for n in [None] + template_names(d):
+            cs.append({"kind": "history_sym", "doc": d, "vary": n})
     return cs
 
 
@@ -142,6 +202,14 @@ def run_case(case, tier):
         res["unknown_check"] = st["unknown"]
         res["nontrivial"] = st["paths"]
         res["sample"] = {"doc": name, "set_iteration_events": st["events"], "order_paths": st["paths"]}
+        return res
+    if case["kind"] == "history_sym":
+        st = run_history_sym_case(case["doc"], case["vary"])
+        res.update({k: st[k] for k in ("paths", "queries", "solver_s", "checks", "failures")})
+        res["inconclusive"] = [x for x in st["inconclusive"] if "truncated" not in x]
+        res["unknown_check"] = st["unknown_check"]
+        res["nontrivial"] = st["paths"]
+        res["sample"] = {"doc": case["doc"], "vary": case["vary"], "paths": st["paths"]}
         return res
     out_after, out_fresh = run_history_case(case["a"], case["b"])
     res["paths"] = 2
@@ -166,7 +234,7 @@ def orig_text(t):
 
 def finding_key(case, failure):
     k = {"kind": case["kind"], "label": failure["label"]}
-    k.update({x: case[x] for x in ("doc", "a", "b") if x in case})
+    k.update({x: case[x] for x in ("doc", "a", "b", "vary") if x in case})
     return k
 
 
@@ -178,7 +246,49 @@ def replay(case, failure):
     import json
     import os
 
-    if case["kind"] == "history":
+    if case["kind"] == "history_sym":
+        import fractions, re as _re
+
+        tpl = pool.family_templates("thorough")[case["doc"]]
+        inp = failure.get("inputs") or {}
+
+        def inst(second):
+            def sub(m):
+                n = m.group(1)
+                if n == "rootattrs":
+                    return ""
+                key = n + "_b" if (second and n == case["vary"]) else n
+                return repr(float(fractions.Fraction(inp.get(key, "2.5"))))
+
+            return _re.sub(r"\{([A-Za-z_][A-Za-z0-9_]*)\}", sub, tpl)
+
+        docs = [inst(False), inst(True)]
+        # the abstract-Skia refutation says WHICH number leaks from A into B; whether two concrete
+        # shapes overlap so that it shows is geometry: also try a battery of spread-out layouts
+        import zlib
+
+        def layout(salt, second):
+            def sub(m):
+                n = m.group(1)
+                if n == "rootattrs":
+                    return ""
+                r = zlib.crc32(f"{n}/{salt}".encode())
+                if n[0] == "o":
+                    v = 0.25 + (r % 3) * 0.25
+                elif n[0] in "whrs":
+                    v = 6.0 + r % 9
+                else:
+                    v = 1.0 + r % 13
+                if second and n == case["vary"]:
+                    v = v * 0.5 if n[0] == "o" else v + 3.0
+                return repr(v)
+
+            return _re.sub(r"\{([A-Za-z_][A-Za-z0-9_]*)\}", sub, tpl)
+
+        battery = [docs] + [[layout(k, False), layout(k, True)] for k in range(8)]
+    if case["kind"] in ("history", "history_sym"):
+        if case["kind"] == "history":
+            docs = [concrete_doc(case["a"]), concrete_doc(case["b"])]
         code = (
             "import sys, json\nfrom picosvg.svg import SVG\n"
             "a, b = json.load(sys.stdin)\n"
@@ -188,11 +298,16 @@ def replay(case, failure):
             "mode = sys.argv[1]\n"
             "if mode == 'after':\n    conv(a)\nprint(conv(b))\n"
         )
-        outs = []
-        for mode in ("after", "fresh"):
-            p = subprocess.run([sys.executable, "-c", code, mode], input=json.dumps([concrete_doc(case["a"]), concrete_doc(case["b"])]), capture_output=True, text=True, env=dict(os.environ, PYTHONHASHSEED="0"))
-            outs.append(p.stdout)
-        return {"reproduced": outs[0] != outs[1], "detail": "real package, one process vs fresh process"}
+        if case["kind"] == "history":
+            battery = [docs]
+        for i, docs in enumerate(battery):
+            outs = []
+            for mode in ("after", "fresh"):
+                p = subprocess.run([sys.executable, "-c", code, mode], input=json.dumps(docs), capture_output=True, text=True, env=dict(os.environ, PYTHONHASHSEED="0"))
+                outs.append(p.stdout)
+            if outs[0] != outs[1]:
+                return {"reproduced": True, "detail": f"real package, one process vs fresh process (layout {i})", "docs": docs, "after": outs[0][:400], "fresh": outs[1][:400]}
+        return {"reproduced": False, "detail": "real package, one process vs fresh process"}
     text = orig_text(pool.UNSUPPORTED["text"]) if case["kind"] == "order_error_message" else concrete_doc(case["doc"])
     if failure.get("inputs"):
         # numbers of the solver's witness
